@@ -48,9 +48,10 @@ theorem wavPadAt_length (n : Nat) : (wavPadAt n).length ≤ 1 := by unfold wavPa
 /-- the final header rewrite of `wav_close`, whatever the stale length fields were -/
 theorem close_wav_core (X : H) (hdr D pad : List Byte) (p O F : Nat) (hc : X.container = .wav) (hO : hdrLenOf X = O)
     (hl : hdr.length = O) (hd : X.dataoffset = (O : Int)) (hde : X.dataend = ((O + D.length : Nat) : Int))
-    (hF : X.frames = (F : Int)) (hpk : X.peak = none) (hp : O ≤ p) :
+    (hF : X.frames = (F : Int)) (pk : Option (List Peak)) (hpk : X.peak = pk)
+    (hpas : pk = none ∨ X.peakAtStart = true) (hp : O ≤ p) :
     (Sf.writeHeader X { bytes := hdr ++ D ++ pad, pos := p } true).2.bytes =
-      wavHdr_ct X.big (codecOf X.fmtWord) X.enc.nbytes X.ch X.sr F none true
+      wavHdr_ct X.big (codecOf X.fmtWord) X.enc.nbytes X.ch X.sr F pk true
         ((O + D.length + pad.length : Nat) : Int) (D.length : Int) ++ D ++ pad := by
   subst hO
   have hO : 0 < hdrLenOf X := by simp only [hdrLenOf, hc]; exact wavHdrLen_pos X
@@ -66,8 +67,24 @@ theorem close_wav_core (X : H) (hdr D pad : List Byte) (p O F : Nat) (hc : X.con
   have e3 : hdrOf (recalc X (hdr ++ (D ++ pad)).length true) = wavHeader (recalc X (hdr ++ (D ++ pad)).length true) := by
     unfold hdrOf; rw [recalc_container, hc]
   rw [e3, wavHeader_eq_ct, e1, e2]
-  simp [H.nb, hF, hpk]
-  cases X.peakAtStart <;> rfl
+  simp only [recalc_big, recalc_fmtWord, recalc_ch, recalc_sr, recalc_frames, recalc_peak, recalc_peakAtStart, H.nb,
+    recalc_enc, hF, hpk]
+  rcases hpas with h1 | h1
+  · rw [h1]; cases X.peakAtStart <;> rfl
+  · rw [h1]
+
+/-- `wav_write_tailer` when a PEAK chunk, if any, sits in front of the data: seek to the end of the data, write the pad byte -/
+theorem wavTailer_nopeaktail (h : H) (s : Store) (hpas : ∀ ps, h.peak = some ps → h.peakAtStart = true)
+    (hpos : h.dataoffset + h.frames * (h.nb : Int) * (h.ch : Int) > 0) :
+    wavTailer h s =
+      ({ h with datalength := h.frames * h.nb * h.ch, dataend := h.dataoffset + h.frames * h.nb * h.ch },
+       (s.seekSet (h.dataoffset + h.frames * h.nb * h.ch).toNat).write
+         (if (h.dataoffset + h.frames * h.nb * h.ch) % 2 == 1 then [0] else [])) := by
+  unfold wavTailer
+  simp only [hpos, if_true]
+  cases hp : h.peak with
+  | none => simp
+  | some ps => simp [hpas ps hp]
 
 /-- closing a WAV: fresh header, the data, and at most one zero byte behind it — the pad byte when the data section
     ends on an odd offset (written, or already there), otherwise whatever `wav_close` did not cut -/
@@ -75,10 +92,14 @@ theorem RwView.close_wav {h : H} {s : Store} {R W F : Nat} {hdr D : List Byte} (
     (hc : h.container = .wav) :
     ∃ t2 : Nat, t2 ≤ 1 ∧ ((hdrLenOf h + D.length) % 2 = 1 → t2 = 1) ∧
       (closeHandle h s).bytes =
-        wavHdr_ct h.big (codecOf h.fmtWord) h.enc.nbytes h.ch h.sr F none true
+        wavHdr_ct h.big (codecOf h.fmtWord) h.enc.nbytes h.ch h.sr F h.peak true
           ((hdrLenOf h + D.length + t2 : Nat) : Int) (D.length : Int) ++ D ++ zeros t2 := by
   have hO : 0 < hdrLenOf h := by simp only [hdrLenOf, hc]; exact wavHdrLen_pos h
   obtain ⟨t, hb, ht⟩ := v.bytes
+  have hpas : h.peak = none ∨ h.peakAtStart = true := by
+    cases hp : h.peak with
+    | none => left; rfl
+    | some ps => right; exact (v.peak ps hp).2
   have ht1 : t ≤ 1 := by rcases ht with h0 | ⟨h1, _⟩ <;> omega
   have hdlen : h.frames * (h.nb : Int) * (h.ch : Int) = (D.length : Int) := by
     rw [v.frames, v.dlen]; unfold H.bw H.nb; push_cast; rw [Int.mul_assoc]
@@ -110,37 +131,34 @@ theorem RwView.close_wav {h : H} {s : Store} {R W F : Nat} {hdr D : List Byte} (
   unfold closeHandle
   rw [v.mode, hc]
   simp only [show (Mode.rw == Mode.r) = false from rfl, Bool.false_eq_true, if_false]
-  unfold wavTailer
-  simp only [hdlen, hde2, hpos, v.peak, if_true, Int.toNat_natCast, List.append_nil, hpad, hwr, v.mode,
-    show (Mode.rw == Mode.rw) = true from rfl]
+  rw [wavTailer_nopeaktail h s (fun ps hp => (v.peak ps hp).2) (by rw [hdlen, hde2]; exact hpos)]
+  simp only [hdlen, hde2, Int.toNat_natCast, hpad, hwr, v.mode, show (Mode.rw == Mode.rw) = true from rfl, if_true]
   have hp : hdrLenOf h ≤ hdrLenOf h + D.length + p := by omega
   have hcore : ∀ (X : H) (tt : Nat), X.container = .wav → hdrLenOf X = hdrLenOf h → X.dataoffset = h.dataoffset →
-      X.dataend = ((hdrLenOf h + D.length : Nat) : Int) → X.frames = h.frames → X.peak = none →
+      X.dataend = ((hdrLenOf h + D.length : Nat) : Int) → X.frames = h.frames → X.peak = h.peak → X.peakAtStart = h.peakAtStart →
       X.big = h.big → X.fmtWord = h.fmtWord → X.enc = h.enc → X.ch = h.ch → X.sr = h.sr →
       (Sf.writeHeader X { bytes := hdr ++ D ++ zeros tt, pos := hdrLenOf h + D.length + p } true).2.bytes =
-        wavHdr_ct h.big (codecOf h.fmtWord) h.enc.nbytes h.ch h.sr F none true
+        wavHdr_ct h.big (codecOf h.fmtWord) h.enc.nbytes h.ch h.sr F h.peak true
           ((hdrLenOf h + D.length + tt : Nat) : Int) (D.length : Int) ++ D ++ zeros tt := by
-    intro X tt x1 x2 x3 x4 x5 x6 x7 x8 x9 x10 x11
+    intro X tt x1 x2 x3 x4 x5 x6 x6b x7 x8 x9 x10 x11
     have := close_wav_core X hdr D (zeros tt) _ (hdrLenOf h) F x1 x2 v.hlen (by rw [x3]; exact v.doff) x4
-      (by rw [x5]; exact v.frames) x6 hp
+      (by rw [x5]; exact v.frames) h.peak x6 (by rw [x6b]; exact hpas) hp
     rw [this, x7, x8, x9, x10, x11, zeros_length]
   have htake : List.take (hdrLenOf h + D.length + p) (hdr ++ D ++ zeros t1) = hdr ++ D ++ zeros (p * t1) := by
     rcases hcut with h0 | ⟨h1, h2⟩
     · rw [h0, Nat.add_zero, Nat.zero_mul, ← v.hlen, ← List.length_append, List.take_left' rfl]; simp [zeros]
     · rw [h1, h2, List.take_of_length_le (by simp [v.hlen, zeros]; omega)]
-  have hcl : hdrLenOf ({ h with datalength := (D.length : Int), dataend := ((hdrLenOf h + D.length : Nat) : Int), peak := none } : H) =
-      hdrLenOf h := hdrLenOf_congr_rw _ _ rfl rfl v.peak.symm rfl
   split
   · split
     · rw [htake]
-      refine ⟨p * t1, ?_, ?_, hcore _ _ hc (hdrLenOf_congr_rw _ _ rfl rfl v.peak.symm rfl) rfl rfl rfl rfl rfl rfl rfl rfl rfl⟩
+      refine ⟨p * t1, ?_, ?_, hcore _ _ hc (hdrLenOf_congr_rw _ _ rfl rfl rfl rfl) rfl rfl rfl rfl rfl rfl rfl rfl rfl rfl⟩
       · rcases hcut with h0 | ⟨h1, h2⟩
         · rw [h0]; omega
         · rw [h1, h2]; omega
       · intro hx; obtain ⟨a, b⟩ := hodd1 hx; rw [a, b]
     · exact ⟨t1, hp1, fun hx => (hodd1 hx).1,
-        hcore _ _ hc (hdrLenOf_congr_rw _ _ rfl rfl v.peak.symm rfl) rfl rfl rfl rfl rfl rfl rfl rfl rfl⟩
+        hcore _ _ hc (hdrLenOf_congr_rw _ _ rfl rfl rfl rfl) rfl rfl rfl rfl rfl rfl rfl rfl rfl rfl⟩
   · exact ⟨t1, hp1, fun hx => (hodd1 hx).1,
-      hcore _ _ hc (hdrLenOf_congr_rw _ _ rfl rfl v.peak.symm rfl) rfl rfl rfl rfl rfl rfl rfl rfl rfl⟩
+      hcore _ _ hc (hdrLenOf_congr_rw _ _ rfl rfl rfl rfl) rfl rfl rfl rfl rfl rfl rfl rfl rfl rfl⟩
 
 end Sf
